@@ -135,6 +135,25 @@ def run_case(case):
     for i in range(k):
         name = 'L%d' % i
         hooks = {'setUp': 'ok', 'tearDown': 'ok'}
+        r = rng.random()
+        if r < 0.35:
+            # the child says something on its real stderr while shutting
+            # down, after the report
+            hooks['setUp'] = {'beh': 'ok', 'actions': [
+                {'ph': 'body', 'do': 'atexit_write',
+                 'text': rng.choice(['bye from %s\n' % name,
+                                     'Exception ignored in: <function f>\n'
+                                     'Traceback (most recent call last):\n'
+                                     '  File "x.py", line 1, in f\n'
+                                     'ValueError: late\n',
+                                     'a b c\n', 'x\n' * 30])}]}
+        elif r < 0.6:
+            # ... or before it (ordinary chatter, not a report look-alike)
+            hooks['setUp'] = {'beh': 'ok', 'actions': [
+                {'ph': 'body', 'do': 'write', 'stream': 'fd2',
+                 'text': rng.choice(['connection was reset\n', 'a b c\n',
+                                     'warning: %s is slow\n' % name,
+                                     '1 2\n', 'x y\n' * 20])}]}
         layers.append({'name': name, 'kind': 'class', 'bases': [],
                        'hooks': hooks})
         tests = []
@@ -216,6 +235,8 @@ def run_case(case):
             ztr_monitor.disable_yield_injection()
         C('yield_lines', ztr_monitor.COUNTERS.get('yield.lines', 0) - y0)
         C('par_runs')
+        C('children_with_late_stderr',
+          sum(1 for e in wp.events if e['k'] == 'atexit.registered'))
         if wp.raised is not None:
             V('parallel-run-aborted', 'run-raised',
               tb=(wp.raised_tb or '')[-700:])
